@@ -29,14 +29,23 @@ var catOps = map[string][]string{
 	"call":   {"call"},
 	"alias":  {"alias", "nth", "alias", "get"},
 	"other":  {"cons", "reverse", "map", "select", "zip", "reject", "concat", "insert-sorted"},
-	"create": {"vector", "quote", "sorted-map", "list", "to-bytes", "make-sequence", "vector", "quote"},
+	"create": {"vector", "quote", "sorted-map", "list", "to-bytes", "make-sequence", "vector", "quote", "array2"},
 }
 
 var createNames = []string{"vector", "vector", "list", "quote", "quote", "sorted-map", "to-bytes", "vector"}
 
 func genArg(t *rapid.T) Arg {
 	a := Arg{}
-	switch k := rapid.IntRange(0, 11).Draw(t, "argkind"); {
+	switch k := rapid.IntRange(0, 14).Draw(t, "argkind"); {
+	case k == 12:
+		a.K = 5 // float I+0.5
+		a.I = rapid.IntRange(-3, 12).Draw(t, "float")
+	case k == 13:
+		a.K = 6 // symbol
+		a.I = rapid.IntRange(0, 4).Draw(t, "sym")
+	case k == 14:
+		a.K = 7 // keyword
+		a.I = rapid.IntRange(0, 4).Draw(t, "kw")
 	case k <= 6:
 		a.K = 0
 		a.I = rapid.IntRange(-3, 12).Draw(t, "int")
@@ -56,10 +65,16 @@ func genArg(t *rapid.T) Arg {
 	return a
 }
 
-func genStep(t *rapid.T, first bool) Step {
+func genStep(t *rapid.T, first bool) Step { return genStepOp(t, first, "") }
+
+// genStepOp draws a step; a non-empty op forces the operation.
+func genStepOp(t *rapid.T, first bool, op string) Step {
 	s := Step{}
 	cat := "create"
-	if first {
+	if op != "" {
+		s.Op = op
+		cat = ""
+	} else if first {
 		s.Op = rapid.SampledFrom(createNames).Draw(t, "create")
 	} else {
 		cat = rapid.SampledFrom(categories).Draw(t, "cat")
@@ -72,15 +87,15 @@ func genStep(t *rapid.T, first bool) Step {
 	s.A = rapid.IntRange(0, 9).Draw(t, "a")
 	s.B = rapid.IntRange(0, 9).Draw(t, "b")
 	s.Loose = rapid.IntRange(0, 11).Draw(t, "loose") == 0
-	s.T = rapid.SampledFrom([]int{1, 0, 1, 0, 1, 0, 1, 2}).Draw(t, "t")
+	s.T = rapid.SampledFrom([]int{1, 0, 1, 0, 1, 0, 1, 2, 0, 3}).Draw(t, "t")
 	if cat == "bytes" && rapid.IntRange(0, 5).Draw(t, "bt") > 0 {
-		s.T = 2
+		s.T = rapid.SampledFrom([]int{2, 2, 2, 3}).Draw(t, "btt")
 	}
 	s.I = rapid.IntRange(0, 7).Draw(t, "i")
 	s.J = rapid.IntRange(0, 7).Draw(t, "j")
 	nargs := 0
 	switch s.Op {
-	case "vector", "list", "quote":
+	case "vector", "list", "quote", "array2":
 		nargs = rapid.IntRange(0, 6).Draw(t, "nargs")
 	case "sorted-map":
 		nargs = rapid.IntRange(0, 4).Draw(t, "nargs")
@@ -100,7 +115,7 @@ func genStep(t *rapid.T, first bool) Step {
 		nkeys = 1
 	}
 	for i := 0; i < nkeys; i++ {
-		s.Keys = append(s.Keys, KeySpec{N: rapid.IntRange(0, 4).Draw(t, "key"), Sym: rapid.Bool().Draw(t, "sym")})
+		s.Keys = append(s.Keys, KeySpec{N: rapid.IntRange(0, 6).Draw(t, "key"), Sym: rapid.Bool().Draw(t, "sym")})
 	}
 	s.Fn = rapid.IntRange(0, 3).Draw(t, "fn")
 	if s.Op == "alias" && cat == "map" {
@@ -115,6 +130,9 @@ func genStep(t *rapid.T, first bool) Step {
 		s.Bad = rapid.IntRange(1, 5).Draw(t, "bad")
 	}
 	s.Pref = rapid.SampledFrom([]int{0, 1, 2, 0, 3, 1, 0, 2}).Draw(t, "pref")
+	if rapid.IntRange(0, 6).Draw(t, "viaq") == 0 {
+		s.Via = rapid.IntRange(1, 63).Draw(t, "via")
+	}
 	return s
 }
 
@@ -160,6 +178,272 @@ func genDerive(t *rapid.T) []Step {
 	return []Step{d, m, r}
 }
 
+// scenarioStep draws a well-typed step of the given operation for use inside
+// a scenario (no error injection, no path operand unless the scenario sets it).
+func scenarioStep(t *rapid.T, op string) Step {
+	s := genStepOp(t, false, op)
+	s.Loose, s.Bad, s.Via, s.Pref = false, 0, 0, 0
+	return s
+}
+
+// aim makes the principal operand of s the value held by slot a.
+func aim(s *Step, a int) { s.Direct, s.A = true, a }
+
+// distinctSlots draws n (<= 4) pairwise different slots.
+func distinctSlots(t *rapid.T, n int) []int {
+	out := []int{rapid.IntRange(0, NSlots-1).Draw(t, "slot")}
+	for len(out) < n {
+		out = append(out, (out[len(out)-1]+rapid.IntRange(1, 3).Draw(t, "slotd"))%NSlots)
+	}
+	return out
+}
+
+func atLeastOneArg(t *rapid.T, s *Step) {
+	if len(s.Args) == 0 {
+		s.Args = []Arg{genArg(t)}
+	}
+}
+
+var extendSeqOps = []string{"append", "append", "append", "cons", "insert-index", "insert-sorted", "concat", "append!", "append", "insert-index"}
+var extendByteOps = []string{"append", "append-bytes", "append", "append-bytes", "concat", "append!", "append-bytes!"}
+var exactOrigins = []string{"keys", "reverse", "concat", "zip", "append", "insert-index", "insert-sorted", "slice", "rest", "cdr"}
+
+// genCapacity emits the scenario in which a write can land in SPARE CAPACITY:
+// a source S whose storage was grown incrementally or sized generously by its
+// producer (a 0/1-element list or vector, a cons chain, select / reject,
+// make-sequence, map, a vector or bytes value grown by append! /
+// append-bytes!, any derived value, or whatever a slot already holds), then
+// TWO extending operations from that same source into X and Y (append each
+// type, cons, insert-index incl. at the end, insert-sorted, concat, append!,
+// append-bytes), then an in-place change of X and of Y or S.  Every live value
+// is compared with the model after each step, so a second extension that
+// overwrites the first one's result, or a sort of X that reorders S, is seen.
+func genCapacity(t *rapid.T) []Step {
+	sl := distinctSlots(t, 3)
+	S, X, Y := sl[0], sl[1], sl[2]
+	var out []Step
+	bytesSrc := false
+	switch org := rapid.IntRange(0, 12).Draw(t, "origin"); org {
+	case 0: // 0/1-element list or vector (the argument list is sized for the formals)
+		s := scenarioStep(t, rapid.SampledFrom([]string{"list", "list", "vector"}).Draw(t, "o0"))
+		if len(s.Args) > 1 {
+			s.Args = s.Args[:rapid.IntRange(0, 1).Draw(t, "o0n")]
+		}
+		s.Dst = S
+		out = append(out, s)
+	case 1, 2: // cons chain
+		s := scenarioStep(t, "list")
+		if len(s.Args) > 1 {
+			s.Args = s.Args[:rapid.IntRange(0, 1).Draw(t, "o1n")]
+		}
+		s.Dst = S
+		out = append(out, s)
+		for i := 0; i < org; i++ {
+			c := scenarioStep(t, "cons")
+			aim(&c, S)
+			c.Dst = S
+			out = append(out, c)
+		}
+	case 3, 4, 5: // select / reject into a list or a vector
+		s := scenarioStep(t, rapid.SampledFrom([]string{"select", "reject"}).Draw(t, "o3"))
+		s.T = rapid.SampledFrom([]int{0, 0, 1}).Draw(t, "o3t")
+		s.Pref = rapid.IntRange(0, 3).Draw(t, "o3p")
+		s.Dst = S
+		out = append(out, s)
+	case 6:
+		s := scenarioStep(t, "make-sequence")
+		s.Dst = S
+		out = append(out, s)
+	case 7:
+		s := scenarioStep(t, "map")
+		s.T = rapid.IntRange(0, 1).Draw(t, "o7t")
+		s.Dst = S
+		out = append(out, s)
+	case 8, 9: // a vector grown in place
+		s := scenarioStep(t, "vector")
+		s.Dst = S
+		g := scenarioStep(t, "append!")
+		g.T = 1
+		aim(&g, S)
+		g.Dst = -1
+		atLeastOneArg(t, &g)
+		out = append(out, s, g)
+	case 10: // bytes grown in place
+		bytesSrc = true
+		s := scenarioStep(t, "to-bytes")
+		s.Fn = 1 // from a string
+		s.Dst = S
+		g := scenarioStep(t, rapid.SampledFrom([]string{"append!", "append-bytes!"}).Draw(t, "o10"))
+		g.T = 2
+		aim(&g, S)
+		g.Dst = -1
+		atLeastOneArg(t, &g)
+		out = append(out, s, g)
+	case 11: // a derived value
+		s := scenarioStep(t, rapid.SampledFrom(exactOrigins).Draw(t, "o11"))
+		s.T = rapid.IntRange(0, 1).Draw(t, "o11t")
+		s.Pref = rapid.IntRange(0, 3).Draw(t, "o11p")
+		s.Dst = S
+		out = append(out, s)
+	default: // whatever slot S holds already
+	}
+	ops := extendSeqOps
+	if bytesSrc {
+		ops = extendByteOps
+	}
+	op1 := rapid.SampledFrom(ops).Draw(t, "ext1")
+	op2 := op1
+	if rapid.IntRange(0, 3).Draw(t, "extdiff") == 0 {
+		op2 = rapid.SampledFrom(ops).Draw(t, "ext2")
+	}
+	t1 := rapid.SampledFrom([]int{1, 1, 0}).Draw(t, "extt")
+	for i, op := range []string{op1, op2} {
+		e := scenarioStep(t, op)
+		aim(&e, S)
+		e.Dst = []int{X, Y}[i]
+		e.T = t1
+		if bytesSrc {
+			e.T = 2
+		} else if i == 1 && rapid.IntRange(0, 4).Draw(t, "exttd") == 0 {
+			e.T = 1 - t1
+		}
+		if op == "append" || op == "append!" {
+			atLeastOneArg(t, &e)
+		}
+		if op == "insert-index" && rapid.Bool().Draw(t, "atend") {
+			e.I = -1 // resolved to the length: insertion at the end
+		}
+		out = append(out, e)
+	}
+	for i := 0; i < 2; i++ {
+		op := "stable-sort"
+		if bytesSrc || rapid.IntRange(0, 4).Draw(t, "capmut") == 0 {
+			op = "append!"
+		}
+		m := scenarioStep(t, op)
+		if bytesSrc {
+			m.T = 2
+		}
+		if i == 0 {
+			aim(&m, X)
+		} else {
+			aim(&m, rapid.SampledFrom([]int{Y, Y, S}).Draw(t, "capmut2"))
+		}
+		m.Dst = -1
+		atLeastOneArg(t, &m)
+		out = append(out, m)
+	}
+	return out
+}
+
+var nestedSeqDerive = []string{"concat", "concat", "append", "append", "cons", "reverse", "map", "select", "reject", "zip", "insert-index", "insert-sorted", "slice", "cdr", "rest", "nth", "alias", "call", "concat", "append"}
+var nestedMapDerive = []string{"assoc", "dissoc", "assoc", "dissoc", "get", "alias"}
+
+// genNested emits the scenario that pins the IDENTITY of a container held as
+// an element: make a container N (list, vector, sorted-map or bytes), store it
+// -- once or twice -- in a holder H (list, vector, sorted-map, cons, append!,
+// assoc!), DERIVE D from H with a non-mutating operation (its elements are
+// the same objects), then change N in place by one of four routes: through
+// its own name, through H, through D, or through any holder that has a
+// fitting element -- (stable-sort < (nth gD 0)), (assoc! (get gH 'k) ...),
+// (append! (aref gD 1) ...).  Optionally a second change by another route or
+// a second derivation from the same operands follows.  After each step N, H
+// and D (and every other live value) are compared with the model.
+func genNested(t *rapid.T) []Step {
+	sl := distinctSlots(t, 4)
+	N, H, D, E := sl[0], sl[1], sl[2], sl[3]
+	var out []Step
+	kind := rapid.IntRange(0, 3).Draw(t, "nkind") // 0 list, 1 vector, 2 map, 3 bytes
+	if rapid.IntRange(0, 4).Draw(t, "nexisting") > 0 {
+		in := scenarioStep(t, []string{"list", "vector", "sorted-map", "to-bytes"}[kind])
+		in.Fn = 1
+		in.Dst = N
+		out = append(out, in)
+	}
+	ref := Arg{K: 4, I: N}
+	hop := rapid.SampledFrom([]string{"list", "vector", "sorted-map", "list", "vector", "cons", "append!", "assoc!", "array2"}).Draw(t, "hop")
+	h := scenarioStep(t, hop)
+	h.Dst = H
+	h.T = 1
+	atLeastOneArg(t, &h)
+	if hop == "sorted-map" && len(h.Keys) < len(h.Args) {
+		h.Keys = append(h.Keys, KeySpec{N: rapid.IntRange(0, 6).Draw(t, "hkey"), Sym: rapid.Bool().Draw(t, "hsym")})
+	}
+	h.Args[rapid.IntRange(0, len(h.Args)-1).Draw(t, "hpos")] = ref
+	if len(h.Args) > 1 && rapid.IntRange(0, 2).Draw(t, "htwice") == 0 {
+		h.Args[rapid.IntRange(0, len(h.Args)-1).Draw(t, "hpos2")] = ref
+	}
+	out = append(out, h)
+	holderIsMap := hop == "sorted-map" || hop == "assoc!"
+	dops := nestedSeqDerive
+	if holderIsMap {
+		dops = nestedMapDerive
+	}
+	d := scenarioStep(t, rapid.SampledFrom(dops).Draw(t, "dop"))
+	aim(&d, H)
+	d.Dst = D
+	d.T = rapid.IntRange(0, 1).Draw(t, "dt")
+	switch d.Op {
+	case "map":
+		if rapid.IntRange(0, 2).Draw(t, "dmapid") > 0 {
+			d.Fn = 0 // identity: the elements themselves
+		}
+	case "select":
+		d.Fn = rapid.IntRange(1, 2).Draw(t, "dsel") // keeps containers
+	case "reject":
+		d.Fn = 0 // rejects ints, keeps containers
+	case "zip", "concat":
+		if rapid.Bool().Draw(t, "dself") {
+			d.B = H
+		}
+	case "slice":
+		if rapid.Bool().Draw(t, "dfull") {
+			d.I, d.J = 0, 7
+		}
+	case "alias":
+		d.Fn = 0
+	case "call":
+		atLeastOneArg(t, &d)
+	}
+	out = append(out, d)
+	mutOps := [][]string{{"stable-sort"}, {"stable-sort", "append!", "stable-sort"}, {"assoc!", "dissoc!", "assoc!"}, {"append!", "append-bytes!"}}[kind]
+	first := rapid.IntRange(0, 3).Draw(t, "route")
+	mutate := func(route int) Step {
+		m := scenarioStep(t, rapid.SampledFrom(mutOps).Draw(t, "mop"))
+		m.Dst = -1
+		if kind == 3 {
+			m.T = 2
+		} else {
+			m.T = 1
+		}
+		atLeastOneArg(t, &m)
+		switch route {
+		case 0:
+			aim(&m, N)
+		case 1:
+			aim(&m, H)
+			m.Via = rapid.IntRange(1, 63).Draw(t, "mvia")
+		case 2:
+			aim(&m, D)
+			m.Via = rapid.IntRange(1, 63).Draw(t, "mvia")
+		default:
+			m.Via = rapid.IntRange(1, 63).Draw(t, "mvia")
+		}
+		return m
+	}
+	out = append(out, mutate(first))
+	switch rapid.IntRange(0, 3).Draw(t, "nmore") {
+	case 0, 1:
+		out = append(out, mutate((first+rapid.IntRange(1, 3).Draw(t, "route2"))%4))
+	case 2:
+		r := d
+		r.Again = true
+		r.Dst = E
+		out = append(out, r)
+	}
+	return out
+}
+
 func genCase() *rapid.Generator[Case] {
 	maxSteps := 25
 	if os.Getenv("VERIF_TIER") == "thorough" {
@@ -170,9 +454,18 @@ func genCase() *rapid.Generator[Case] {
 		c := Case{}
 		for len(c.Steps) < n {
 			i := len(c.Steps)
-			if i >= 2 && rapid.IntRange(0, 5).Draw(t, "scenario") == 0 {
-				c.Steps = append(c.Steps, genDerive(t)...)
-				continue
+			if i >= 2 {
+				switch rapid.IntRange(0, 9).Draw(t, "scenario") {
+				case 0:
+					c.Steps = append(c.Steps, genDerive(t)...)
+					continue
+				case 1:
+					c.Steps = append(c.Steps, genCapacity(t)...)
+					continue
+				case 2:
+					c.Steps = append(c.Steps, genNested(t)...)
+					continue
+				}
 			}
 			c.Steps = append(c.Steps, genStep(t, i < 2))
 		}
